@@ -15,6 +15,7 @@ import Genq.Model.Vars
 import Genq.Model.TypeMap
 import Genq.Model.Imports
 import Genq.Model.Codec
+import Genq.Model.InputClosure
 open Lean
 namespace Genq.Driver
 
@@ -576,6 +577,24 @@ def opCodec (op : String) (j : Json) : Except String Json := do
       return Json.mkObj [("supported", supported), ("ok", true), ("val", valOut v), ("enc", tjOut out), ("again", again)]
   | _ => throw s!"unknown op {op}"
 
+
+def opInputs (op : String) (j : Json) : Except String Json := do
+  match op with
+  | "inputs.closure" =>
+    -- types: [[name, [field type names]]…]; root: name
+    let ts ← (← getArr j "types").toList.mapM fun e => do
+      let p ← e.getArr?
+      if h : p.size = 2 then
+        let fs ← (← p[1].getArr?).toList.mapM fun x => x.getStr?
+        pure ((← p[0].getStr?), fs)
+      else throw "type entry"
+    let S : InputClosure.InSchema := ⟨fun n => (ts.lookup n).getD []⟩
+    let root ← getStr j "root"
+    match InputClosure.visit S (ts.length + 1) root [] with
+    | some d => return Json.mkObj [("ok", true), ("visited", Json.arr (d.map Json.str).toArray)]
+    | none => return Json.mkObj [("ok", false)]
+  | _ => throw s!"unknown op {op}"
+
 def dispatch (j : Json) : Json :=
   let r : Except String Json := do
     let op ← getStr j "op"
@@ -594,6 +613,7 @@ def dispatch (j : Json) : Json :=
     else if op.startsWith "tm." then opTypeMap op j
     else if op.startsWith "imports." then opImports op j
     else if op.startsWith "codec." then opCodec op j
+    else if op.startsWith "inputs." then opInputs op j
     else throw s!"unknown op {op}"
   let idf := match j.getObjVal? "id" with | .ok v => [("id", v)] | .error _ => []
   match r with
